@@ -1,6 +1,7 @@
 import Bpmn.Props.C01
 import Bpmn.Props.EngineCurrent
-open Bpmn.Props.C01 Bpmn.Props.EngineCurrent
+import Bpmn.Props.C01Conformance
+open Bpmn.Props.C01 Bpmn.Props.EngineCurrent Bpmn.Props.C01Conformance
 #print axioms selectFlows_spec
 #print axioms forkToks_spec
 #print axioms C01_counterexample_first_flow_decides
@@ -11,3 +12,13 @@ open Bpmn.Props.C01 Bpmn.Props.EngineCurrent
 #print axioms current_firstFlow_ok
 #print axioms current_subReturns_ok
 #print axioms current_facts_known
+#print axioms conformance_start
+#print axioms conformance_answer
+#print axioms conformance_runOps
+#print axioms conformance_runOps_ideal
+#print axioms C01Conformance_holds
+#print axioms joinOf_admissible
+#print axioms C01Conformance_counterexample
+#print axioms mixed_run_is_neither_ideal_variant
+#print axioms mixed_run_is_a_token_game_run
+#print axioms sticky_start_is_logged
